@@ -16,6 +16,9 @@ BUILT = {
     'C07': ('exhaustive enumeration of a finite table space against a reference model (explicit-state, on the real code)',
             'Complete enumeration of the finite opcode-slot space (1792 slots x 2 operand fillings x 5 addresses x 10 additional-opcode settings x wrap) on the real decoders, timing table and all four simulators, against an independent algorithmic reference decoder.',
             'Trusted: mc/refs/z80ref.py (reference decoder/timing from the Zilog manual), CPython, gcc. Operand bytes beyond two fillings per slot are covered by C02.'),
+    'C08': ('inductive-step enumeration over a pointer-edge state alphabet with invariant monitors on the real simulators; TLC model checking of a TLA+ latch model with every edge of the dumped state graph replayed on every paging implementation; exhaustive two/three-write port histories',
+            'A: every opcode slot (and interrupt acceptance) executed from every state of an alphabet that aims all pointers and the stack at the ROM/RAM and 64K edges, on all four simulators x {48K, 128K ROM 0, 128K ROM 1}, with monitors for ROM immutability, register and cell ranges and a monotone clock (inductive step). B: models/Paging128.tla (0x7FFD latch: decode, bank/ROM select, sticky lock) is model-checked by TLC and every edge of its state graph is replayed on 10 paging bindings (pagingtracer.PagingTracer both write_port variants with all four simulators, C internal paging without tracer, skoolmacro.PagingTracer/AudioTracer128 with skoolutils.Memory), source states reached three ways, driven by real OUT instructions and observed through simulated marker stores into every 16K region. C: all 256 x 256 two-write histories (thorough: on every binding and 4 port decodes, plus three-write histories over 64 value classes).',
+            'Trusted: TLC, the TLA+ model as the statement of the documented latch, CPython, gcc. Part A is an inductive argument over the stated state alphabet (pointers exactly at the two edges); part C quick uses value classes on the secondary bindings.'),
     'C19': ('exhaustive enumeration of both contention delay tables and of a bounded placement x frame-position space per opcode slot, on the real contended simulators against a reference bus-cycle/ULA model',
             'Both delay tables read back completely (a NOP at every one of the 69888/70908 frame positions), and every opcode slot x operand fillings x placements of PC, data pointers, stack and port address (ROM, contended, uncontended, 0xC000 with even/odd bank) x I register x both condition outcomes x every phase of the wait pattern at both ends of the contended window (first, middle, last line; frame edges), on CMIOSimulator and CCMIOSimulator: state equals the reference semantics, T delta equals documented duration plus the sum over the reference bus cycles of the published wait pattern, Python == C.',
             'Trusted: mc/refs/z80ref.py bus-cycle lists per instruction class (published contention table) and mc/refs/ula.py (published wait pattern and frame layouts). Frame positions outside the enumerated set (quick: ~90; thorough: four whole lines + edges) are covered only by the table read-back with a NOP. Interrupt acceptance is not part of this property.'),
